@@ -20,7 +20,7 @@ class GridTransform:
     composed through world for two grids; vectors get exactly its linear part."""
 
     target = "deepali.core.grid:Grid.transform"
-    properties = ("C01",)
+    properties = ("C01", "C05")
 
     def cases(self, tier):
         for D in (2, 3):
@@ -30,12 +30,22 @@ class GridTransform:
                         for other in ("none", "same", "other"):
                             for det in ((1, -1) if tier == "thorough" else (1,)):
                                 yield {"D": D, "axes": a, "to_axes": b, "vectors": vectors, "to_grid": other, "det": det}
+        # grids whose stored size is fractional (pyramid level of an odd-sized grid): the number of samples N is the
+        # rounded-up size in every map
+        for a in AX:
+            for b in AX:
+                if a != b:
+                    for vectors in (False, True):
+                        yield {"D": 2, "axes": a, "to_axes": b, "vectors": vectors, "to_grid": "none", "det": 1, "fractional": True}
 
     def run(self, case, K):
         from deepali.core.grid import Axes
 
         D = case["D"]
-        g, gs = make_grid(K, "g", D, det=case["det"])
+        if case.get("fractional"):
+            g, gs = fractional_grid(K, "g", D)
+        else:
+            g, gs = make_grid(K, "g", D, det=case["det"])
         if case["to_grid"] == "other":
             h, hs = make_grid(K, "h", D, det=1, align_corners=False)
             outside_eq_band(K, gs, hs)
@@ -87,12 +97,23 @@ def second_grid(K, case, g, gs):
     return None, gs
 
 
+def fractional_grid(K, name, D):
+    """an oriented grid with symbolic geometry whose stored size is fractional: the first pyramid level of a 7 x 5 (x 7)
+    grid, i.e. raw size 3.5 x 2.5 (x 3.5) and 4 x 3 (x 4) samples; returns (grid, GridSpec with N = number of samples)"""
+    from contracts.c03_derived import spec_of
+
+    sizes = (7, 5) if D == 2 else (7, 5, 7)
+    g0, _ = make_grid(K, name, D, sizes=sizes)
+    g = g0.downsample()
+    return g, spec_of(K, g, N=[E.const(-(-n // 2)) for n in sizes])
+
+
 @register
 class GridTransformVectors:
     """Grid.transform_vectors has its own closed-form scale/affine path; it must equal the linear part of the point map."""
 
     target = "deepali.core.grid:Grid.transform_vectors"
-    properties = ("C01", "C10")
+    properties = ("C01", "C10", "C02")
 
     def cases(self, tier):
         for D in (2, 3):
@@ -101,12 +122,19 @@ class GridTransformVectors:
                     for other in ("none", "other"):
                         for shp in (("vec", "23D") if tier == "thorough" else ("2D",)):
                             yield {"D": D, "axes": a, "to_axes": b, "to_grid": other, "shape": shp, "det": 1}
+        for a in AX:
+            for b in AX:
+                if a != b:
+                    yield {"D": 2, "axes": a, "to_axes": b, "to_grid": "none", "shape": "2D", "det": 1, "fractional": True}
 
     def run(self, case, K):
         from deepali.core.grid import Axes
 
         D = case["D"]
-        g, gs = make_grid(K, "g", D, det=case["det"])
+        if case.get("fractional"):
+            g, gs = fractional_grid(K, "g", D)
+        else:
+            g, gs = make_grid(K, "g", D, det=case["det"])
         h, hs = second_grid(K, case, g, gs)
         ev = K.reals("v", VSHAPES[case["shape"]](D))
         v = K.tensor(ev)
@@ -259,7 +287,7 @@ class GridLaws:
     """The laws of the statement, run end-to-end through the real code (they also follow from the per-call contracts)."""
 
     target = "deepali.core.grid:Grid.transform"
-    properties = ("C01",)
+    properties = ("C01", "C05")
 
     def cases(self, tier):
         for D in (2, 3):
